@@ -38,4 +38,17 @@ META = {
   "note": "Trusted: Coq kernel + vm_compute; hand-written model; net/http and grpc-go contracts; handler programs cover terminating handlers that use the request/writer interfaces only.",
   "technique": "Coq proof (logical relation for transparency, induction for bundle order, functional-table lemma for the router) over an executable model + differential correspondence (vm_compute) against a live server",
 }
-KNOWN = []
+KNOWN = [
+ {"property": "C17", "id": "F13a", "status": "fixed", "commit": "ca12e3a",
+  "what": "NewHttpsProvider never assigned its ServeMux to srvr.Handler: every route registered for the HTTPS listener answered 404 (GET /p1 registered, https GET /p1 -> 404, handler never ran)",
+  "line": "fixed: property=C17 ca12e3a HTTPS listener answered 404 for every registered route (mux never installed as handler)",
+  "signature": "^https-registered-route-404:1$"},
+ {"property": "C17", "id": "F13b", "status": "fixed", "commit": "2e77a2d",
+  "what": "LogRequest read r.Body to EOF and left it drained: POST /p1 body [104,105] to an echo handler behind LogRequest -> handler read 0 bytes, client got an empty body",
+  "line": "fixed: property=C17 2e77a2d handler behind LogRequest read an empty request body (middleware not transparent)",
+  "signature": "^body-after-logrequest:1$"},
+ {"property": "C17", "id": "F13c", "status": "fixed", "commit": "9e3870f",
+  "what": "HttpsServerConfigBuilder had no UsingMiddleWare although NewHttpsProvider wraps routes in cfg.GetMiddleware(): middleware could not be configured for the HTTPS listener at all (recording middleware requested on HTTPS never ran)",
+  "line": "fixed: property=C17 9e3870f middleware requested for the HTTPS listener was never applied (builder had no way to set it)",
+  "signature": "^https-middleware-not-configurable:1$"},
+]
